@@ -374,6 +374,23 @@ pub fn header(version: u32, generator: u32, bound: u32) -> Vec<u32> {
     vec![MAGIC, version, generator, bound, 0]
 }
 
+/// A header whose version and generator words are chosen by `key` from values the parser may (wrongly) act
+/// upon: every known version, later minor / major versions, registered generator ids with old and new tool
+/// versions, zero and arbitrary words. What a binary's instructions mean must not depend on them.
+pub fn header_varied(key: u64, bound: u32) -> Vec<u32> {
+    let k = crate::util::mix(key ^ 0x6865_6164);
+    const VERSIONS: &[u32] = &[0x0001_0000, 0x0001_0100, 0x0001_0200, 0x0001_0300, 0x0001_0400, 0x0001_0500, 0x0001_0600, 0x0001_0700, 0x0001_0800, 0x0001_ff00, 0x0002_0000];
+    let version = VERSIONS[(k % VERSIONS.len() as u64) as usize];
+    let g = k >> 8;
+    let generator = match g % 4 {
+        0 => 0,
+        1 => (((g >> 4) % 46) as u32) << 16 | ((g >> 12) % 24) as u32,
+        2 => (((g >> 4) % 46) as u32) << 16 | [0u32, 1, 0xffff, 0x100][((g >> 12) % 4) as usize],
+        _ => (g >> 4) as u32,
+    };
+    header(version, generator, bound)
+}
+
 pub fn version_word(major: u8, minor: u8) -> u32 {
     ((major as u32) << 16) | ((minor as u32) << 8)
 }
